@@ -195,6 +195,23 @@ def step (_ : Unit) (ws : List String) : Unit × String :=
         | .ok b => ((), s!"0 {isz} {hexOfBytes b}")
         | .error e => ((), s!"{e} {isz} -")
     | _, _ => bad
+  | ["idxgen", n, seed, avail] => match n.toNat?, seed.toNat?, avail.toNat? with
+    | some n, some seed, some a =>
+      let rec gen (k : Nat) (x : Nat) (acc : List IndexRecord) : List IndexRecord :=
+        match k with
+        | 0 => acc.reverse
+        | k + 1 =>
+          let x := (x * 6364136223846793005 + 1442695040888963407) % 18446744073709551616
+          gen k x (⟨5 + (x >>> 33) % 100000, (x >>> 11) % 1073741824⟩ :: acc)
+      let rs := gen n seed []
+      match indexAppendAll rs {} with
+      | .error e => ((), s!"append ? {e}")
+      | .ok _ =>
+        let isz := indexSize rs.length (indexListSize rs)
+        match indexBufferEncode rs a with
+        | .ok b => ((), s!"0 {isz} {hexOfBytes b}")
+        | .error e => ((), s!"{e} {isz} -")
+    | _, _, _ => bad
   | ["idxdec", h] => match hx h with
     | some b => match indexDecode b with
       | .ok (rs, rest) =>
